@@ -335,8 +335,14 @@ void dispatchArgs(GenState &gs, Node *c) {
     return;
   }
 
+  std::size_t registers_before = gs.getSymbols().register_state.size();
   gs.getSymbols().argnum++;
   gs.getSymbols().fetchVariableRegister(std::string(c->tok));
+  // every parameter needs a register of its own: parameter k lives in
+  // register k and the frame must hold at least argnum registers
+  if (gs.getSymbols().register_state.size() == registers_before)
+    gs.err(CodegenResult::Error::Type::INTERNAL_ERROR,
+           "parameter '" + c->tok + "' is declared more than once");
 }
 
 // dispatch a function definition
